@@ -473,9 +473,10 @@ def _b_irtensor_torch(env):
 
 
 def _a_torch_noncontig(env):
-    if env.spec.bits < 8:
+    r = _a_torch(env) or _a_noncontig(env)
+    if r is None and env.spec.bits < 8:
         return "skip:torch-cannot-copy-shell-dtypes"   # torch: "copy_kernel" not implemented for 'UInt2'
-    return _a_torch(env) or _a_noncontig(env)
+    return r
 
 
 def _b_torch_noncontig(env):
